@@ -386,10 +386,10 @@ pub fn check_reads(values: &[i128], r: &Reader) -> Option<Outcome> {
 
 /// IntVec / UintVector outcome class: order of the packed u64 image, then the buckets at which int_vec.rs switches
 /// strategy (`len < 4` raw; `len <= 1000 || width <= 16` MinMax else BlockBased in analyze_small_dataset_strategy;
-/// `len > 10000` analyze_optimal_strategy), and where MinMax may be chosen the range width bucket (<=16, 17..58,
+/// `len > 10000 && bytes > 16 KiB` analyze_optimal_strategy), and where MinMax may be chosen the range width bucket (<=16, 17..58,
 /// 59..63 = bit fields that do not fit one unaligned 64-bit load, 64).  Sorted inputs take the Delta path whatever
 /// their size.
-fn generic_class(values: &[i128]) -> String {
+fn generic_class(values: &[i128], elem_bytes: usize) -> String {
     if values.len() >= 4 && values.windows(2).all(|w| w[0] <= w[1]) {
         return "sorted".into();
     }
@@ -405,9 +405,10 @@ fn generic_class(values: &[i128]) -> String {
             };
             format!("unsorted/n4..1000/{wb}")
         }
-        1001..=10000 => {
+        // from_slice: `len <= 10000 || len * size_of::<T>() / 1024 <= 16` -> analyze_small_dataset_strategy
+        n if n <= 10000 || n * elem_bytes / 1024 <= 16 => {
             let wb = if matches!(wc, "w-" | "w0" | "w1..16") { "w<=16" } else { "w>16" };
-            format!("unsorted/n1001..10000/{wb}")
+            format!("unsorted/n>1000,small_path/{wb}")
         }
         _ => {
             let wb = match wc {
@@ -416,7 +417,7 @@ fn generic_class(values: &[i128]) -> String {
                 "w64" => "w64",
                 _ => "w17..58",
             };
-            format!("unsorted/n>10000/{wb}")
+            format!("unsorted/n>1000,optimal_path/{wb}")
         }
     }
 }
@@ -583,7 +584,7 @@ fn intvec_specs<T: Elem>(out: &mut Vec<Spec>) {
                 Got::Val(x) => Got::Val(T::from_i128(x).to_u64() as i128),
                 o => o,
             };
-            let r = Reader { len: iv.len(), get: &get_img, get2: None, oob_panics_documented: false, class_of: &generic_class };
+            let r = Reader { len: iv.len(), get: &get_img, get2: None, oob_panics_documented: false, class_of: &|v: &[i128]| generic_class(v, std::mem::size_of::<T>()) };
             check_reads(&img, &r).unwrap_or_else(|| pass(&img))
         }));
     }
@@ -634,7 +635,7 @@ fn uintvector_check(v: &UintVector, vals: &[i128]) -> Option<Outcome> {
         Ok(None) => Got::Refused,
         Err(pf) => Got::Panic(pf.detail),
     };
-    check_reads(vals, &Reader { len: v.len(), get: &get, get2: None, oob_panics_documented: false, class_of: &generic_class })
+    check_reads(vals, &Reader { len: v.len(), get: &get, get2: None, oob_panics_documented: false, class_of: &|v: &[i128]| generic_class(v, 4) })
 }
 
 fn other_specs(out: &mut Vec<Spec>) {
